@@ -50,6 +50,10 @@ def check(prog, ctx):
                         if any(r_.has(t) for t in nanterms):
                             rep[r_] = S.true if isinstance(r_, sp.Ne) else S.false
                     c = c.xreplace(rep).xreplace(vals)
+                if hasattr(c, 'replace'):
+                    # the library's Sign(a, b) = |a| with the sign of b (b >= 0 counts as positive), on numbers
+                    c = c.replace(lambda e_: isinstance(e_, sp.core.function.AppliedUndef) and e_.func.__name__ == 'Sign2' and all(a_.is_number for a_ in e_.args),
+                                  lambda e_: sp.Abs(e_.args[0]) if e_.args[1] >= 0 else -sp.Abs(e_.args[0]))
                 try:
                     c = sp.simplify(c)
                 except Exception:
